@@ -1,12 +1,17 @@
 #!/bin/bash
-# usage: tools/try_mutant.sh <patch.diff> <PROP> [extra check args]   -- applies the patch to /repo, runs the check, reverts
-patch="$1"; shift
+# usage: tools/try_mutant.sh <patch.diff> <PROP> [extra check args]
+# Runs the check of <PROP> against a scratch copy of /repo's HEAD with the patch applied (PYTHONPATH puts the copy in
+# front of the editable install); /repo itself, the evidence files and /verif/replays are not touched, so this can run
+# next to a soak of the unchanged tree.  The scratch copy is removed afterwards.
+patch="$(readlink -f "$1")"; shift
 prop="$1"; shift
-cd /repo || exit 3
-if ! git diff --quiet; then echo "REPO DIRTY, refusing"; exit 3; fi
-git apply "$patch" || { echo "patch does not apply"; exit 3; }
+wt=/tmp/mut-$$
+git -C /repo worktree add -q --detach "$wt" HEAD || exit 3
+trap 'git -C /repo worktree remove --force "$wt"; rm -rf "$wt.replays"' EXIT
+git -C "$wt" apply "$patch" || { echo "patch does not apply"; exit 3; }
 cd /verif
-VERIF_NO_EVIDENCE=1 ./check "$prop" "$@" 2>&1 | grep -v "^  class=" | tail -6
+where=$(PYTHONPATH="$wt" /venv/bin/python -c "import cohdl; print(cohdl.__file__)")
+case "$where" in "$wt"/*) ;; *) echo "cohdl not imported from scratch copy: $where"; exit 3;; esac
+PYTHONPATH="$wt" VERIF_NO_EVIDENCE=1 VERIF_REPLAY_DIR="$wt.replays" ./check "$prop" "$@" 2>&1 | grep -v "^  class=\|^KNOWN" | tail -6
 rc=${PIPESTATUS[0]}
-git -C /repo checkout -- .
 echo "mutant run exit=$rc"
